@@ -13,6 +13,7 @@ def correspondence(ctx):
         cases.insert(0, {"list": ["", "a"], "length": 3, "sep": ("char", ""), "cap": "none", "budget": chargen.DEFAULT_BUDGET,
                          "words": wlgen.make_tape(ctx.rng, 2, 3, ("char", ""), "none", kind), "meta": {"corpus": "F7", "tape_kind": kind}})
     ctx.wl_results = wlgen.run_wlgen_family(ctx, cases)
+    ctx.wl_big = wlgen.run_big_lists(ctx)
     for c, a, b in ctx.wl_results:
         if c["length"] >= 2 and (c["meta"].get("tape_kind") in ("first", "last", "exact") or c["sep"][1] == ""):
             ctx.nontrivial.add((str(c["list"]), c["length"], str(wlgen.sep_json(c["sep"])), c["cap"], c["meta"].get("tape_kind"), len(c["words"])))
@@ -31,7 +32,7 @@ def title_map(titles):
 
 def oracle(ctx, deep):
     ctx.searched = "structural oracle re-stated from the property text on every real wordlist password of the run"
-    for c, a, b in getattr(ctx, "wl_results", []):
+    for c, a, b in getattr(ctx, "wl_results", []) + getattr(ctx, "wl_big", []):
         if a is None:
             continue
         order, titles, rest = wlgen.parse_pre(a)
